@@ -637,3 +637,10 @@ func minInt(a, b int) int {
 	}
 	return b
 }
+
+func maxInt(a, b int) int {
+	if a > b {
+		return a
+	}
+	return b
+}
